@@ -58,7 +58,7 @@ class Pool:
         for i in range(4):
             regions, _ = carts.random_regions(rng, 'uniform')
             regions['music'] = rc.music_mask(regions['music'])
-            code = carts.simple_lua(rng, rng.choice((30, 200, 900)))
+            code = carts.varied_lua(rng, rng.choice((30, 200, 900)))
             p = os.path.join(root, '%s-s%d.p8' % (carts.cart_basename(i * 3 + rng.randrange(3)), i))
             trim, omit = (), ()
             if i >= 2:
@@ -80,7 +80,7 @@ class Pool:
             self.items['p8'].append({'path': p, 'regions': regions, 'code': code, 'trimmed': bool(trim)})
             regions, _ = carts.random_regions(rng, 'uniform')
             regions['music'] = rc.music_mask(regions['music'])
-            code = carts.simple_lua(rng, rng.choice((30, 200, 900)))
+            code = carts.varied_lua(rng, rng.choice((30, 200, 900)))
             area = rc.raw_code_area(code) if i % 2 else rc.code_area_from_items(rc.c_greedy(code), len(code))
             p = os.path.join(root, '%s-s%d.p8.png' % (carts.cart_basename(i * 3 + 1 + rng.randrange(3)), i))
             rows = [bytearray(carts.random_bytes(rng, rc.CART_W * 4)) for _ in range(rc.CART_H)]
@@ -97,7 +97,7 @@ class Pool:
                 with open(p, 'wb') as fh:
                     fh.write(rc.write_p8png(regions, area + bytes(rc.CODE_SIZE - len(area)), 33))
                 self.items['png'].append({'path': p, 'regions': regions, 'code': b'', 'no_lua': True})
-            code = carts.simple_lua(rng, rng.choice((30, 300)))
+            code = carts.varied_lua(rng, rng.choice((30, 300)))
             if i % 2:
                 # a library-style main file: the chunk ends in a return statement (it is code like any other)
                 code = code + rng.choice((b'return vec\n', b'-- export\nreturn {v=1}\n', b'do return end\n', b'return'))
@@ -123,7 +123,7 @@ def write_out_state(rng, state, path_base):
     """-> (path or None, previous contents dict or None)"""
     regions, _ = carts.random_regions(rng, 'uniform')
     regions['music'] = rc.music_mask(regions['music'])
-    code = carts.simple_lua(rng, rng.choice((0, 40, 400)))
+    code = carts.varied_lua(rng, rng.choice((0, 40, 400)))
     return regions, code
 
 
@@ -133,7 +133,7 @@ def refresh_source(rng, pool):
     it = rng.choice(pool.items[kind])
     regions, _ = carts.random_regions(rng, 'uniform')
     regions['music'] = rc.music_mask(regions['music'])
-    code = carts.simple_lua(rng, rng.choice((30, 200)))
+    code = carts.varied_lua(rng, rng.choice((30, 200)))
     if kind == 'p8':
         data = rc.write_p8(regions, code, version=8)
     else:
